@@ -98,7 +98,7 @@ func RunC10Typed(c *core.Ctx) {
 		}
 		return float32(genFloat(r) / 1e270)
 	}
-	switch r.Intn(16) {
+	switch r.Intn(20) {
 	case 0:
 		label = kind + "[int64]"
 		v, want = typedSeq(r, kind, genN(r, n, genInt))
@@ -150,6 +150,44 @@ func RunC10Typed(c *core.Ctx) {
 		label = ak + "[rune,float32]"
 		ks := distinctN(r, n, genRune)
 		v, want, multi = typedAssoc(ak, ks, genN(r, len(ks), f32))
+	case 16:
+		// Go arrays and maps are written as Arrays and Maps
+		label = "[]int64"
+		vals := genN(r, n, genInt)
+		v = vals
+		_, want = typedSeq(r, "Array", vals)
+	case 17:
+		label = "[]string"
+		vals := genN(r, n, genString)
+		v = vals
+		_, want = typedSeq(r, "Array", vals)
+	case 18:
+		label = "map[string]float64"
+		ks := distinctN(r, n, genString)
+		vs := genN(r, len(ks), genFloat)
+		m := map[string]float64{}
+		for i := range ks {
+			m[ks[i]] = vs[i]
+		}
+		v = m
+		_, want, multi = typedAssoc("Map", ks, vs)
+	case 19:
+		label = "List[any] of Go arrays and maps"
+		a, b := genN(r, r.Intn(4), genInt), genN(r, r.Intn(4), genString)
+		k := genString(r)
+		v = col.List[any](notation).MakeFromArray([]any{a, b, map[string]int64{k: 7}, []any{int64(1), "x", nil}})
+		wa := make([]any, len(a))
+		for i := range a {
+			wa[i] = a[i]
+		}
+		wb := make([]any, len(b))
+		for i := range b {
+			wb[i] = b[i]
+		}
+		wm := col.Map[any, any](notation).Make()
+		wm.SetValue(k, int64(7))
+		A := col.Array[any](notation)
+		want, _ = Canon(col.List[any](notation).MakeFromArray([]any{A.MakeFromArray(wa), A.MakeFromArray(wb), wm, A.MakeFromArray([]any{int64(1), "x", nil})}))
 	default:
 		ak := []string{"Catalog", "Map"}[r.Intn(2)]
 		label = ak + "[uint8,bool]"
